@@ -491,7 +491,7 @@ class Engine:
         self.nrun = 0
         self.env = {}           # extra environment of every harness process
         self.alogs = {}
-        self.bg = concurrent.futures.ThreadPoolExecutor(max_workers=3)
+        self.bg = concurrent.futures.ThreadPoolExecutor(max_workers=4)
         self.bgjobs = []
         ctx.cov.setdefault("tlc_runs", [])
         ctx.cov.setdefault("schedules_replayed", 0)
@@ -553,7 +553,7 @@ class Engine:
     def counterexample(self, cfg, timeout=300):
         """Runs an as-is cfg; returns the hist of the counterexample (or None)."""
         path = os.path.join(self.ctx.sub("cex"), cfg + ".json")
-        r = self.ctx.tlc("FSM", cfg=cfg, workers=4, timeout=timeout, deadlock=False, extra=["-dumpTrace", "json", path],
+        r = self.ctx.tlc("FSM", cfg=cfg, workers=2, timeout=timeout, deadlock=False, extra=["-dumpTrace", "json", path],
                          name="tlc-" + cfg.replace(".cfg", ""))
         self._record(cfg, r, "as-is")
         if not r.invariant_violated:
